@@ -627,7 +627,13 @@ class Process:
             # have been reused by another process. Process identity /
             # uniqueness over time is guaranteed by (PID + creation
             # time) and that is verified in __eq__.
-            self._pid_reused = self != Process(self.pid)
+            other = Process(self.pid)
+            if None in {self._ident[1], other._ident[1]}:
+                # The PID exists but its creation time could not be
+                # determined (AccessDenied), so there is no evidence
+                # that it was reused.
+                return True
+            self._pid_reused = self != other
             if self._pid_reused:
                 _pids_reused.add(self.pid)
                 raise NoSuchProcess(self.pid)
